@@ -286,9 +286,12 @@ def oracle(c):
 
     def mask_of(i, ivs):
         return [1 if any(x[0] == i and x[1] <= p < x[2] for x in ivs) else 0 for p in range(sizes[i])]
+    pts_known = all(rank[x[0]] is not None for x in pts)
     if op == "trackviews":
-        if not valid or not pts_ok or not pts:
+        if not valid or not pts:
             return SKIP
+        if not pts_ok:
+            return {"err": "raised"} if pts_known else SKIP     # a negative / too large location must be refused
         vals = c["vals"]
         chrom = [list(vals[i]) for i in incl]
         return {"chrom": chrom, "data": chrom, "at": [vals[x[0]][x[1]] for x in pts],
@@ -303,8 +306,12 @@ def oracle(c):
         d = [[sum(1 for x in pts if x[0] == i and x[1] // b == k) for k in range((sizes[i] + b - 1) // b)] for i in incl]
         return {"dict": d, "get": d}
     if op == "maploc":
+        if not valid or not pts_known:
+            return SKIP
+        if not pts_ok:
+            return {"err": "raised"}                   # a negative / too large location must be refused
         gp = [(rank[x[0]], x[1]) for x in pts]
-        if not valid or not pts_ok or gp != sorted(gp):
+        if gp != sorted(gp):
             return SKIP                                # locations are given in genome order
         if c.get("fn") == "module" and len(names) != 1:
             return SKIP
@@ -544,6 +551,9 @@ def cases(tier, rng):
         every = sorted([c, p] for c in incl for p in range(sizes[c]))
         yield dict(base, op="maploc", iv=iv, pts=every)
         yield dict(base, op="locsort", pts=pts)
+        cneg = max(incl)
+        yield dict(base, op="trackviews", iv=iv, pts=pts + [[cneg, -1]], vals=vals)
+        yield dict(base, op="maploc", iv=iv, pts=[[cneg, -1]])
         if len(names) == 1:
             yield dict(base, op="maploc", iv=iv, pts=every, fn="module")
         ivz = m._rand_iv(rng, sizes, list(range(len(names))), k, valid=False)
